@@ -12,6 +12,7 @@ CONSTANTS
   LimOther = 1
   MaxOps = 8
   MaxInject = 0
+  MaxCloses = 2
   MaxRoleChanges = 0
   OnlyDiscover = TRUE
   Dials <- MCDials
